@@ -816,8 +816,19 @@ class StubTN:
         return jnp.asarray(self.t)
 
 
+def xq(c):
+    """extended rational of OptimisersCem: [1, 0] = +inf, [-1, 0] = -inf, else the Fraction"""
+    if isinstance(c, (list, tuple)) and int(c[1]) == 0:
+        return float("inf") if int(c[0]) > 0 else float("-inf")
+    return exact.q(c)
+
+
 def qarr(x):
-    return np.asarray([[float(exact.q(c)) for c in row] for row in x], dtype=np.float32) if isinstance(x[0][0], list) else np.asarray([float(exact.q(c)) for c in x], dtype=np.float32)
+    return np.asarray([[float(xq(c)) for c in row] for row in x], dtype=np.float32) if isinstance(x[0][0], list) else np.asarray([float(xq(c)) for c in x], dtype=np.float32)
+
+
+def box_text(vec):
+    return f"box {[str(xq(c)) for c in vec['lb']]}..{[str(xq(c)) for c in vec['ub']]}, mean {[str(xq(c)) for c in vec['mean']]}, var {[str(xq(c)) for c in vec['var']]}"
 
 
 def close_q(v, xq, scale, roundings):
@@ -849,13 +860,34 @@ def cem_case(vec, fit, adm, corrupt=False):
         return ("cem_sample:truncation", f"truncated normal requested as {stub.calls}, expected one draw in (-2, 2) of shape {(n, len(vec['mean']))}")
     s = np.asarray(s)
     want = vec["samples"]
-    if corrupt:
+    inbox = vec.get("inbox")
+    if corrupt == "inbox":
+        inbox = copy.deepcopy(inbox)
+        inbox[0][0] = not inbox[0][0]
+    elif corrupt:
         want = copy.deepcopy(want)
         want[0][0] = [want[0][0][0] + want[0][0][1], want[0][0][1]]
+    lbn, ubn = qarr(vec["lb"]), qarr(vec["ub"])
+    if s.shape != (n, len(vec["mean"])):
+        return ("cem_sample:shape", f"population of shape {s.shape}, expected {(n, len(vec['mean']))}")
+    if inbox is not None:
+        # the order predicate lb <= candidate <= ub of every candidate against TLC's verdict (a NaN is inside nothing)
+        for i in range(n):
+            for j in range(len(vec["mean"])):
+                got = bool(lbn[j] <= s[i, j] <= ubn[j])
+                if got != bool(inbox[i][j]):
+                    one_sided = bool(np.isinf(lbn[j]) != np.isinf(ubn[j]))
+                    where = f"candidate {i} dim {j} = {s[i, j]!r} with t = {xq(vec['t'][i][j])}; {box_text(vec)}; specification: candidate {xq(want[i][j])}, inside the box: {inbox[i][j]}"
+                    if np.isnan(s[i, j]):
+                        return ("cem_sample:nan_candidate" + (":one_sided_box" if one_sided else ""), "cem_sample proposes NaN: " + where)
+                    return ("cem_sample:candidate_outside_bounds", "cem_sample proposes a candidate outside the bounds: " + where)
     for i in range(n):
         for j in range(len(vec["mean"])):
-            if not exact.eq(s[i, j], want[i][j]):
-                return ("cem_sample:value", f"candidate {i} dim {j} = {s[i, j]!r}, model {exact.q(want[i][j])} (mean {vec['mean']}, var {vec['var']}, box {vec['lb']}..{vec['ub']}, t {vec['t'][i][j]})")
+            w = exact.q(want[i][j])
+            # exact = FALSE (TLC): the exact candidate is no float32 number; the final addition mean + t * sd rounds once
+            ok = exact.eq(s[i, j], want[i][j]) if vec.get("exact", True) else bool(np.isfinite(s[i, j]) and np.float32(float(w)) == s[i, j])
+            if not ok:
+                return ("cem_sample:value", f"candidate {i} dim {j} = {s[i, j]!r}, model {w}{'' if vec.get('exact', True) else ' rounded to float32 = ' + repr(np.float32(float(w)))} ({box_text(vec)}, t {vec['t'][i][j]})")
     if fit is None:
         return None
     ne, alpha = vec["ne"], float(exact.q(vec["alpha"]))
@@ -869,16 +901,15 @@ def cem_case(vec, fit, adm, corrupt=False):
     xs = np.abs(np.asarray(s, dtype=np.float64))
     ok_any, mean_any = False, False
     for o in adm:
-        okm = all(close_q(m2[j], exact.q(o["mean"][j]), max(xs[:, j].max(), abs(float(exact.q(vec["mean"][j])))), 0 if dyadic else 4) for j in range(len(m2)))
+        okm = all(np.isfinite(m2[j]) and close_q(m2[j], exact.q(o["mean"][j]), max(xs[:, j].max(), abs(float(exact.q(vec["mean"][j])))), 0 if dyadic else 4) for j in range(len(m2)))
         spread = [max((xs[:, j].max() + xs[:, j].max()) ** 2, float(exact.q(vec["var"][j]))) for j in range(len(m2))]
-        okv = all(close_q(v2[j], exact.q(o["var"][j]), spread[j], 0 if dyadic else 8) for j in range(len(v2)))
+        okv = all(np.isfinite(v2[j]) and close_q(v2[j], exact.q(o["var"][j]), spread[j], 0 if dyadic else 8) for j in range(len(v2)))
         mean_any |= okm
         ok_any |= okm and okv
     if not mean_any:
         return ("cem_update:mean_not_from_best_elites", f"new mean {m2.tolist()} matches no admissible elite set {[(o['elite'], [str(exact.q(x)) for x in o['mean']]) for o in adm]} (fitness {fit}, n_elite {ne}, alpha {alpha})")
     if not ok_any:
         return ("cem_update:var_not_from_best_elites", f"new variance {v2.tolist()} matches no admissible elite set {[(o['elite'], [str(exact.q(x)) for x in o['var']]) for o in adm]} (fitness {fit}, n_elite {ne}, alpha {alpha})")
-    lbn, ubn = qarr(vec["lb"]), qarr(vec["ub"])
     if not ((m2 >= lbn).all() and (m2 <= ubn).all()) and dyadic:
         return ("cem_update:mean_outside_bounds", f"new mean {m2.tolist()} outside [{lbn.tolist()}, {ubn.tolist()}]")
     return None
@@ -894,6 +925,48 @@ def box_fact(x, lb, ub, tol, what):
     over = int(np.ceil(np.max(np.maximum(x - ub, 0) / u)))
     under = int(np.ceil(np.max(np.maximum(lb - x, 0) / u)))
     return {"kind": "box", "what": what, "over": over, "under": under, "tol": tol}
+
+
+def side_box_fact(x, lb, ub, ref_lo, ref_hi, tol, what):
+    """the box fact for boxes with a bound at infinity or a mean much closer to one face than the box is wide: the
+    excess beyond a face is counted in float32 ulps of max(|that face|, ref) - the magnitudes the roundings of
+    mean + t * sqrt(min(var, (dist/2)^2)) act on (ref: the distance of the mean to that face for cem_sample, the
+    largest candidate / mean for optimize_cem) -, not in ulps of the extent of the box; an infinite face cannot be
+    exceeded; nan: some value is NaN"""
+    x, lb, ub, ref_lo, ref_hi = (np.asarray(a, dtype=np.float64) for a in (x, lb, ub, ref_lo, ref_hi))
+    x = x.reshape(-1, lb.shape[0])
+    nan = bool(np.isnan(x).any())
+    xs = np.where(np.isnan(x), lb if np.isfinite(lb).all() else 0.0, x)
+    u_lo = np.asarray([ulp32(max(abs(b), r)) if np.isfinite(b) else 1.0 for b, r in zip(lb, ref_lo)])
+    u_hi = np.asarray([ulp32(max(abs(b), r)) if np.isfinite(b) else 1.0 for b, r in zip(ub, ref_hi)])
+    over = np.where(np.isfinite(ub), np.maximum(xs - np.where(np.isfinite(ub), ub, 0.0), 0) / u_hi, np.where(np.isposinf(xs), 1.0, 0.0))
+    under = np.where(np.isfinite(lb), np.maximum(np.where(np.isfinite(lb), lb, 0.0) - xs, 0) / u_lo, np.where(np.isneginf(xs), 1.0, 0.0))
+    return {"kind": "box", "what": what, "over": int(min(np.ceil(over.max()), 2**30)), "under": int(min(np.ceil(under.max()), 2**30)), "tol": tol, "nan": nan}
+
+
+def edge_boxes(rng, case):
+    """one-sided and wide boxes for the real generator: (lb, ub, mean, var), float32, the nearer face the active limit"""
+    d = 1 + case % 2
+    kind = case % 4
+    near = rng.choice([0.02, 0.3, 1.0 / 64, 1e-3], size=d)  # distance of the mean to its nearer face
+    if kind == 0:  # bounded below only
+        lb, ub = rng.choice([0.0, -1.0, 2.5], size=d), np.full(d, np.inf)
+        mean = lb + near
+    elif kind == 1:  # bounded above only
+        lb, ub = np.full(d, -np.inf), rng.choice([0.0, 1.0, -2.5], size=d)
+        mean = ub - near
+    elif kind == 2:  # box ~1e6 .. 3e7 times wider than the distance of the mean to the lower face
+        lb = rng.choice([0.0, -1.0, 6.99], size=d)
+        ub = lb + rng.choice([1e6, 3e7, 2.0**20], size=d)
+        mean = lb + near
+    else:  # ... to the upper face
+        ub = rng.choice([0.0, 1.0, -6.99], size=d)
+        lb = ub - rng.choice([1e6, 3e7, 2.0**20], size=d)
+        mean = ub - near
+    lb, ub, mean = (np.asarray(a, dtype=np.float32) for a in (lb, ub, mean))
+    mean = np.clip(mean, lb, ub)
+    var = np.asarray(rng.choice([1.0, 4.0, 100.0], size=d), dtype=np.float32)
+    return lb, ub, mean, var
 
 
 def run_cem(rep, quick):
@@ -919,7 +992,13 @@ def run_cem(rep, quick):
             dict(base, NPops={5, 6}, Alphas=S("AlphasSome"), Fits=S("CFitTies")),
             dict(base, NPops={2, 3}, Alphas=S("AlphasSome"), Fits=S("CFitTies"), Lattice="full"),
         ]
-    cfgs = [sample_cfg] + upd_cfgs
+    # legal but unusual boxes (OptimisersCem!EdgeBoxes): a bound at infinity, a box 2^20 .. 2^23 times wider than the
+    # distance of the mean to its nearer face; cem_sample alone and the whole iteration
+    edge_cfgs = [
+        dict(NPops={3} if quick else {2, 3, 6}, Alphas=S("AlphaDefault"), Lattice="edge", Fits=S("CFitTies"), NPats=2 if quick else 3, STOP="sampled", EMIT=False),
+        dict(NPops={2} if quick else {2, 3}, Alphas=S("AlphasSome") if quick else S("AlphasAll"), Lattice="edge", Fits=S("CFitTies"), NPats=1, STOP="updated", EMIT=False),
+    ]
+    cfgs = [sample_cfg] + upd_cfgs + edge_cfgs
     jobs = [lambda c=c: tlc.run("OptimisersCem", tlc.cfg_text(constants=c, invariants=CEM_INVS), workers=tw(), tag="cem") for c in cfgs]
     jobs += [lambda c=c: tlc.run("OptimisersCem", tlc.cfg_text(constants=dict(c, EMIT=True)), workers=1, tag="cemgen") for c in cfgs]
     cb = dict(NPops={2, 3}, Alphas=tlc.Subst("AlphasSome"), Lattice="small", Fits=tlc.Subst("CFitTies"), NPats=1, STOP="updated", EMIT=False)
@@ -927,8 +1006,11 @@ def run_cem(rep, quick):
         lambda: tlc.run("OptimisersCem", tlc.cfg_text(constants=cb, invariants=CEM_INVS), workers=tw(), coverage=True, tag="cemcov"),
         lambda: tlc.run("OptimisersCem", tlc.cfg_text(next="NextBadSample", constants=cb, invariants=["SamplesWithinBounds"]), workers=tw(), tag="cembad"),
         lambda: tlc.run("OptimisersCem", tlc.cfg_text(constants=cb, invariants=["ExtrapolatedWithinBounds"]), workers=tw(), tag="cembad"),
+        lambda: tlc.run("OptimisersCem", tlc.cfg_text(next="NextBadSample", constants=dict(cb, Lattice="edge", NPops={2}), invariants=["SamplesWithinBounds"]), workers=tw(), tag="cembad"),
     ]
     results = par(jobs)
+    if results.pop().violated != "SamplesWithinBounds":
+        raise tlc.MachineryError("canary: unconstrained variance on the one-sided / wide boxes not refuted")
     k = len(cfgs)
     for c, r in zip(cfgs, results[:k]):
         name = f"OptimisersCem NPops={sorted(c['NPops'])} lattice={c['Lattice']} fits={c['Fits'].name} stop={c['STOP']}"
@@ -940,6 +1022,7 @@ def run_cem(rep, quick):
         raise tlc.MachineryError("canary: CEM deviations (unconstrained variance / extrapolated mean) not refuted")
     n_vec = nontriv = 0
     first = True
+    edge_stats = {"one_sided_or_unbounded": 0, "wide_boxes": 0, "rounded_candidates": 0}
     for r in results[k : 2 * k]:
         for e in r.emitted:
             vec, fit, adm = (e["vec"], e["fit"], e["adm"]) if "vec" in e else (e, None, None)
@@ -947,11 +1030,19 @@ def run_cem(rep, quick):
                 first = False
                 if cem_case(vec, fit, adm, corrupt=True) is None:
                     raise tlc.MachineryError("binding canary: corrupted expected CEM sample not noticed")
+                if cem_case(vec, fit, adm, corrupt="inbox") is None:
+                    raise tlc.MachineryError("binding canary: corrupted in-box predicate of a CEM candidate not noticed")
             out = cem_case(vec, fit, adm)
             n_vec += 1
+            lo, hi, mu = (float(xq(vec[f][0])) for f in ("lb", "ub", "mean"))
+            if np.isinf(lo) or np.isinf(hi):
+                edge_stats["one_sided_or_unbounded"] += 1
+            elif hi - lo >= 4096:
+                edge_stats["wide_boxes"] += 1
+            edge_stats["rounded_candidates"] += 0 if vec.get("exact", True) else 1
             if fit is None:
-                half = min(exact.q(vec["mean"][0]) - exact.q(vec["lb"][0]), exact.q(vec["ub"][0]) - exact.q(vec["mean"][0])) / 2
-                nontriv += 1 if half * half < exact.q(vec["var"][0]) else 0  # a face of the box limits the spread
+                half = Fraction(min(mu - lo, hi - mu)) / 2 if np.isfinite(min(mu - lo, hi - mu)) else None
+                nontriv += 1 if half is not None and half * half < exact.q(vec["var"][0]) else 0  # a face of the box limits the spread
             else:
                 nontriv += 1 if len(set(fit)) > 1 or len(adm) > 1 else 0
             if out:
@@ -989,13 +1080,38 @@ def run_cem(rep, quick):
             facts.append(dict(box_fact(np.asarray(path), lb, ub, iters * (ne + 3), "optimize_cem means"), case=case))
         except Exception as ex:  # noqa: BLE001
             rep.violation("cem:exception:" + type(ex).__name__, f"CEM with a real generator raised {type(ex).__name__}: {str(ex)[:120]}", {"kind": "cem-real", "case": case, "seed": rep.seed})
-    res, failed = judge_facts(facts, tag="cemfacts")
-    rep.add_tlc(res, f"OptimisersFacts: {len(facts)} box facts (real generator)")
+    # ---- real generator on one-sided and wide boxes: 6 roundings between the exact and the computed candidate (mean - lb,
+    #      the square, its root, t * sd, the sum, the half-ulp of the face itself)
+    n_plain = len(facts)
+    for case in range(8 if quick else 48):
+        lb, ub, mean, var = edge_boxes(rng, case)
+        key, k1, k2 = jax.random.split(key, 3)
+        desc = {"kind": "cem-real-edge", "case": case, "seed": rep.seed, "lb": lb.tolist(), "ub": ub.tolist(), "mean": mean.tolist(), "var": var.tolist()}
+        try:
+            s = np.asarray(M.cem_sample(jnp.asarray(mean), jnp.asarray(var), k1, 512, jnp.asarray(lb), jnp.asarray(ub)))
+            facts.append(dict(side_box_fact(s, lb, ub, mean - lb, ub - mean, 6, "cem_sample"), case=case, desc=desc))
+            iters, n, ne = 3, 8, 2 + case % 3
+            target = np.where(np.isfinite(lb), lb, ub) + np.float32(0.7)
+            sol, path, hist = M.optimize_cem(lambda x: -jnp.sum((x - target) ** 2, axis=1), jnp.asarray(mean), jnp.asarray(var), k2, iters, n, ne, jnp.asarray(lb), jnp.asarray(ub), epsilon=0.0, return_history=True)
+            path, hist = np.asarray(path), np.asarray(hist)
+            big = np.nanmax(np.abs(np.concatenate([hist.reshape(-1, lb.shape[0]), path.reshape(-1, lb.shape[0])])), axis=0)
+            facts.append(dict(side_box_fact(hist, lb, ub, big, big, 6 + iters * (ne + 3), "optimize_cem samples"), case=case, desc=desc))
+            facts.append(dict(side_box_fact(path, lb, ub, big, big, iters * (ne + 3), "optimize_cem means"), case=case, desc=desc))
+        except Exception as ex:  # noqa: BLE001
+            rep.violation("cem:exception:" + type(ex).__name__, f"CEM with a real generator raised {type(ex).__name__}: {str(ex)[:120]}", desc)
+    res, failed = judge_facts([{k: v for k, v in f.items() if k != "desc"} for f in facts], tag="cemfacts")
+    rep.add_tlc(res, f"OptimisersFacts: {len(facts)} box facts (real generator; {len(facts) - n_plain} on one-sided / wide boxes)")
     for idx, preds in failed:
         f = facts[idx]
-        rep.violation("cem:outside_bounds:" + f["what"].replace(" ", "_"), f"{f['what']}: {f['over']} ulp above / {f['under']} ulp below the box (tolerated {f['tol']})", {"kind": "cem-real", "case": f["case"], "seed": rep.seed})
+        if "NoNaN" in preds:
+            d = f["desc"]
+            one_sided = any(np.isinf(a) != np.isinf(b) for a, b in zip(d["lb"], d["ub"]))
+            rep.violation("cem:nan:" + f["what"].replace(" ", "_") + (":one_sided_box" if one_sided else ""), f"{f['what']} yields NaN for box {d['lb']}..{d['ub']}, mean {d['mean']}, var {d['var']}", d)
+            continue
+        rep.violation("cem:outside_bounds:" + f["what"].replace(" ", "_"), f"{f['what']}: {f['over']} ulp above / {f['under']} ulp below the box (tolerated {f['tol']})" + (f"; box {f['desc']['lb']}..{f['desc']['ub']}, mean {f['desc']['mean']}, var {f['desc']['var']}, ulps of max(|face|, distance of the mean to it)" if "desc" in f else ""),
+                      f.get("desc", {"kind": "cem-real", "case": f["case"], "seed": rep.seed}))
     rep.traces += len(facts)
-    rep.extra["cem"] = {"vectors_replayed": n_vec, "box_facts": len(facts)}
+    rep.extra["cem"] = {"vectors_replayed": n_vec, "box_facts": len(facts), "edge_lattice_vectors": edge_stats, "box_facts_one_sided_or_wide": len(facts) - n_plain}
     return n_vec, nontriv
 
 
@@ -1425,6 +1541,7 @@ def run(rep):
         "CEM: exact on the dyadic lattice (n_elite in {1, 2, 4}: bitwise; otherwise 4 / 8 float32 roundings of the operand magnitude); the truncated-normal draw is an input (jax.random.truncated_normal interposed); NaN fitness is outside the CEM classes (lax.top_k ranks NaN best)",
         "with a real generator and non-dyadic boxes candidates / means may leave the box by the roundings counted in OptimisersFacts!WithinBox (3 per sample, n_elite + 3 per update)",
         "is_cmaes_finished: only 'never in the first generation' and 'always on non-finite fitness' are modelled; the variance / fitness-spread / condition tests are free",
+        "CEM on one-sided / unbounded boxes and boxes 2^20..2^23 times wider than the distance of the mean to its nearer face (OptimisersCem!EdgeBoxes): candidates compared exactly (large-magnitude side: the exact candidate rounded once), in-box predicates per candidate from TLC; real generator there: excess counted in ulps of max(|face|, distance of the mean to it), 6 roundings",
         "trusted: the projections and recorders in harness/drivers/c16.py, harness/exact.py ord32, scripted environment, TLC, CPython/NumPy/JAX",
     ]
 
@@ -1491,6 +1608,20 @@ def replay(path, rep):
         out = cem_case(r["vec"], r["fit"], r["adm"])
         print("  vector", r["vec"], "fitness", r["fit"])
         return fail(out[1]) if out else 0
+    if kind == "cem-real-edge":
+        import jax
+        import jax.numpy as jnp
+
+        from rl_blox.blox import cross_entropy_method as M
+
+        lb, ub, mean, var = (np.asarray(r[f], dtype=np.float32) for f in ("lb", "ub", "mean", "var"))
+        bad = 0
+        for sd in range(8):  # the excess depends on the draws: a few keys
+            smp = np.asarray(M.cem_sample(jnp.asarray(mean), jnp.asarray(var), jax.random.key(s31(r["seed"] + sd)), 512, jnp.asarray(lb), jnp.asarray(ub)))
+            f = side_box_fact(smp, lb, ub, mean - lb, ub - mean, 6, "cem_sample")
+            print(f"  cem_sample box {lb.tolist()}..{ub.tolist()} mean {mean.tolist()} var {var.tolist()}: min {smp.min(axis=0).tolist()} max {smp.max(axis=0).tolist()} -> {f}")
+            bad += 1 if f["nan"] or f["over"] > f["tol"] or f["under"] > f["tol"] else 0
+        return fail("candidates outside the box / NaN") if bad else 0
     if kind == "train":
         p = r["plan"]
         ev = record_train(p["n"], p["d"], p["total"], p["script"], p["active"], r["seed"])
